@@ -43,9 +43,11 @@ class SimLoop(asyncio.BaseEventLoop):
         self.iterations = 0       # _run_once equivalents
         self._ntodo = 0           # handles left in the current iteration
         self.after_step = None    # invariant monitor
-        self.sim_tasks = set()    # tasks created by the code under test
-        self.harness_tasks = set()
-        self._unstarted = set()   # non-harness tasks whose coroutine has not run yet
+        # insertion-ordered (dicts), never sets: iteration order must not depend
+        # on object addresses
+        self.sim_tasks = {}       # tasks created by the code under test
+        self.harness_tasks = {}
+        self._unstarted = {}      # non-harness tasks whose coroutine has not run yet
         self.task_failures = []   # (task, exception) of non-harness tasks
         self.callback_failures = []  # contexts passed to the exception handler
         self._in_harness = 0
@@ -80,10 +82,10 @@ class SimLoop(asyncio.BaseEventLoop):
     def create_task(self, coro, *, name=None, context=None):
         task = super().create_task(coro, name=name, context=context)
         if self._in_harness:
-            self.harness_tasks.add(task)
+            self.harness_tasks[task] = None
         else:
-            self.sim_tasks.add(task)
-            self._unstarted.add(task)
+            self.sim_tasks[task] = None
+            self._unstarted[task] = None
             task.add_done_callback(self._sim_task_done)
         return task
 
@@ -95,8 +97,8 @@ class SimLoop(asyncio.BaseEventLoop):
             self._in_harness -= 1
 
     def _sim_task_done(self, task):
-        self.sim_tasks.discard(task)
-        self._unstarted.discard(task)
+        self.sim_tasks.pop(task, None)
+        self._unstarted.pop(task, None)
         if not task.cancelled():
             e = task.exception()   # also marks it retrieved
             if e is not None:
@@ -111,7 +113,7 @@ class SimLoop(asyncio.BaseEventLoop):
                 if t.done() or inspect.getcoroutinestate(t.get_coro())
                 != inspect.CORO_CREATED]
         for t in gone:
-            self._unstarted.discard(t)
+            self._unstarted.pop(t, None)
         return len(self._unstarted)
 
     def _on_exception(self, loop, context):
